@@ -248,6 +248,20 @@ func (c *Ctl) Abandon() {
 	}()
 }
 
+// Count returns how often a point was passed (free mode).
+func (c *Ctl) Count(label string) int {
+	c.mu.Lock()
+	defer c.mu.Unlock()
+	return c.LabelCount[label]
+}
+
+// All returns the goroutines started so far.
+func (c *Ctl) All() []*G {
+	c.mu.Lock()
+	defer c.mu.Unlock()
+	return append([]*G{}, c.Gs...)
+}
+
 // ---- clock ----
 
 func (c *Ctl) VNow() int64          { return atomic.LoadInt64(&c.now) }
